@@ -122,6 +122,7 @@ type Ctx struct {
 	False  *Term
 	UFs    map[string]*UFDecl
 	UFList []*UFDecl
+	ivals  map[int]ival // intarith.go: memoised syntactic intervals of Int terms
 }
 
 type UFDecl struct {
@@ -408,6 +409,9 @@ func (c *Ctx) Eq(a, b *Term) *Term {
 		return c.Eq(b, a)
 	}
 	if a.Sort.K == KInt {
+		if c.cmpByBounds(a, b, true) == 1 || c.cmpByBounds(b, a, true) == 1 { // disjoint intervals
+			return c.False
+		}
 		if x, y, ok := c.liftPair(a, b); ok {
 			return c.Eq(x, y)
 		}
@@ -859,10 +863,20 @@ func (c *Ctx) intbin(op Op, a, b *Term) *Term {
 			if b.Val.Cmp(bigOne) == 0 {
 				return a
 			}
+			if a.Op == OMul && a.Args[1].IsConst() { // (x*c1)*c2 = x*(c1*c2)
+				return c.intbin(OMul, a.Args[0], c.IntConst(new(big.Int).Mul(a.Args[1].Val, b.Val)))
+			}
 		}
 	case ODiv:
 		if b.IsConst() && b.Val.Cmp(bigOne) == 0 {
 			return a
+		}
+		if r := c.simplifyDivMod(op, a, b); r != nil {
+			return r
+		}
+	case OMod:
+		if r := c.simplifyDivMod(op, a, b); r != nil {
+			return r
 		}
 	}
 	return c.mk(op, Int, []*Term{a, b}, nil, "", 0, 0)
@@ -886,6 +900,9 @@ func (c *Ctx) Lt(a, b *Term) *Term {
 	if a == b {
 		return c.False
 	}
+	if r := c.cmpByBounds(a, b, true); r >= 0 {
+		return c.BoolConst(r == 1)
+	}
 	if x, y, ok := c.liftPair(a, b); ok {
 		return c.BVSlt(x, y)
 	}
@@ -897,6 +914,9 @@ func (c *Ctx) Le(a, b *Term) *Term {
 	}
 	if a == b {
 		return c.True
+	}
+	if r := c.cmpByBounds(a, b, false); r >= 0 {
+		return c.BoolConst(r == 1)
 	}
 	if x, y, ok := c.liftPair(a, b); ok {
 		return c.BVSle(x, y)
@@ -1029,6 +1049,9 @@ func (c *Ctx) Quo(a, b *Term) *Term {
 func (c *Ctx) Rem(a, b *Term) *Term {
 	if a.IsConst() && b.IsConst() && b.Val.Sign() != 0 {
 		return c.IntConst(new(big.Int).Rem(a.Val, b.Val))
+	}
+	if b.IsConst() && b.Val.Sign() != 0 && c.divisibleBy(a, b.Val, 0) {
+		return c.IntI(0)
 	}
 	return c.Sub(a, c.Mul(b, c.Quo(a, b)))
 }
